@@ -25,11 +25,13 @@ def cosmosFloorAccept (minGPraw gas fee : Nat) : Bool :=
 def cosmosCharged (gas fee baseFee : Nat) (tip : Option Nat) : Nat :=
   min (baseFee + tip.getD (2 ^ 63 - 1)) (fee / gas) * gas
 
-/-- MinGasPriceDecorator since cda7d87 (`chargedToo = true`): with the extension option the charged amount has to reach
-    the floor as well; before, only the declared fee was compared -/
-def cosmosFloorAcceptTx (chargedToo : Bool) (minGPraw gas fee baseFee : Nat) (tip : Option Nat) : Bool :=
+/-- MinGasPriceDecorator: before cda7d87 only the declared fee was compared (`chargedToo = false`); cda7d87 made the
+    charged amount reach the floor for transactions carrying the extension option (`everyTx = false`); now, with a base
+    fee in force, the charged amount of every Cosmos transaction has to reach it (without the option the price per gas
+    is still rounded down) -/
+def cosmosFloorAcceptTx (chargedToo everyTx : Bool) (minGPraw gas fee baseFee : Nat) (tip : Option Nat) : Bool :=
   cosmosFloorAccept minGPraw gas fee &&
-    (!chargedToo || tip.isNone || gas = 0 || minGPraw = 0 ||
+    (!chargedToo || (tip.isNone && !everyTx) || gas = 0 || minGPraw = 0 ||
       decide (cosmosRequired minGPraw gas ≤ cosmosCharged gas fee baseFee tip))
 
 /-- effective gas price of an Ethereum tx: legacy / access-list pay `gasPrice`, dynamic-fee pays
